@@ -101,7 +101,7 @@ func initAllowed(path string) bool {
 	switch path {
 	case "strconv", "strings", "bytes", "unicode", "unicode/utf8", "unicode/utf16", "sort", "slices", "bufio",
 		"encoding/binary", "encoding/hex", "container/list", "time", "regexp", "regexp/syntax", "math", "math/bits", "io",
-		"golang.org/x/sync/errgroup", "golang.org/x/sync/semaphore", "github.com/pborman/uuid", "context", "internal/oserror", "io/fs", "path", "internal/bytealg", "internal/stringslite", "cmp", "iter", "maps", "internal/itoa":
+		"golang.org/x/sync/errgroup", "golang.org/x/sync/semaphore", "github.com/pborman/uuid", "github.com/google/uuid", "context", "internal/oserror", "io/fs", "path", "internal/bytealg", "internal/stringslite", "cmp", "iter", "maps", "internal/itoa":
 		return true
 	}
 	return false
@@ -128,6 +128,40 @@ func (e *Engine) initProgram() (err error) {
 				cell := new(Value)
 				*cell = e.zero(deref(g.Type()))
 				e.globals[g] = cell
+			}
+		}
+	}
+	// globals that a skipped initialiser assigns are poisoned: their zero value is not their value
+	e.poisoned = map[*ssa.Global]bool{}
+	for _, p := range e.prog.AllPackages() {
+		if p.Pkg == nil || initAllowed(p.Pkg.Path()) {
+			continue
+		}
+		init := p.Func("init")
+		if init == nil {
+			continue
+		}
+		for _, b := range init.Blocks {
+			for _, in := range b.Instrs {
+				st, ok := in.(*ssa.Store)
+				if !ok {
+					continue
+				}
+				addr := st.Addr
+				for {
+					switch a := addr.(type) {
+					case *ssa.IndexAddr:
+						addr = a.X
+						continue
+					case *ssa.FieldAddr:
+						addr = a.X
+						continue
+					}
+					break
+				}
+				if g, ok := addr.(*ssa.Global); ok && g.Name() != "init$guard" {
+					e.poisoned[g] = true
+				}
 			}
 		}
 	}
@@ -202,6 +236,8 @@ func (e *Engine) runPath(h *ssa.Function, p Prefix, cfg RunConfig) (res *PathRes
 				res.Outcome = "hang"
 				res.Detail = fmt.Sprintf("no termination within %d SSA steps\n%s", cfg.MaxSteps, e.stackString())
 				e.safeRecordFailure("hang", cfg.BudgetObligation, res.Detail)
+			} else if r.reason == "budget" {
+				res.Detail = fmt.Sprintf("step budget of %d exhausted\n%s", cfg.MaxSteps, e.stackString())
 			}
 		case goPanic:
 			res.Outcome = "panic"
